@@ -20,7 +20,7 @@ def reader_fragment_rules(ck, d, P):
         W = r.data[6]
         if kind_of(W) != 1:
             continue
-        if src[0] != 'seq' or src[1].root != buf[1].root or ghost(W, 'ext') is not None:
+        if src[0] != 'seq' or src[1].root != buf[1].root or c01.bears_ext(d, W, 1) is not False:
             continue
         kind, lt_ = c01.part_of(f, W)
         if lt_ is None:
@@ -39,7 +39,7 @@ def reader_fragment_rules(ck, d, P):
         if r.data[2] != TRAIT_MEM + 'new_frag' or kind_of(r.data[5]) != 1:
             continue
         W = r.data[5]
-        if ghost(W, 'ext') is not None:
+        if c01.bears_ext(d, W, 1) is not False:
             continue
         kind, lt_ = c01.part_of(f, W)
         if lt_ is None:
@@ -72,7 +72,7 @@ def reader_fragment_rules(ck, d, P):
     nerr = 0
     for w, rv in d.rets:
         kind, lt_ = c01.part_of(f, w)
-        if kind not in (1, 2, 3) or ghost(w, 'ext') is not None:
+        if kind not in (1, 2, 3) or c01.bears_ext(d, w, kind) is True:
             continue
         for v, fs in (ret_alts(rv) or []):
             if v != 1:
@@ -151,6 +151,8 @@ def run(ck):
     c03.rules(ck, P=f'{P}.R3')
     d = c01.reader_analysis(ck, tag='c02')
     reader_fragment_rules(ck, d, P)
+    # "every PDU that fits the 16-bit total length": encap refuses for its size only when the size is the reason (C01.R3/R7 instances)
+    c01.writer_guard_rules(ck, f'{P}.R7')
     ck.assumptions += ['paper induction over schedules: by R2 (sender: context = bytes emitted, payload windows pdu[pos..pos+n)) and R3 (receiver: payload appended at context.pdu_len, saved context advanced by n) the invariant sender.pos = receiver.pdu_len and storage[0..pos) = pdu[0..pos) is preserved by every (packet produced, packet consumed) step; R4/R5 make the end checks pass (same total-length formula P+2+L with L = 0 after a re-use first fragment, same CRC arguments); C11 gives termination',
                        'payload contents are reduced to "same window of the same object copied by copy_from_slice"',
                        'interplay with storage exhaustion is a premise (sufficient storage)']
